@@ -287,8 +287,10 @@ class C20Matplotlib2D(Harness):
         for kind in ("map", "image", "polar_map"):
             for density in (False, True):
                 for show_zero in ((True, False) if kind != "image" else (True,)):
-                    if tier == "quick" and density and not show_zero:
-                        continue   # nonlinear zero tests on densities: minutes of solver time, kept for the thorough tier
+                    if tier == "quick" and density and (not show_zero or kind == "polar_map"):
+                        # nonlinear zero tests on densities, and densities over polar bins (areas are products of differences of squares):
+                        # minutes of solver time with a large spread between runs - kept for the thorough tier
+                        continue
                     yield f"mpl2-{kind}-d{int(density)}-z{int(show_zero)}", dict(kind=kind, density=density, show_zero=show_zero)
         yield "mpl2-map-1d", dict(kind="map", wrongdim=True, density=False, show_zero=True)
         yield "mpl2-image-irregular", dict(kind="image", irregular=True, density=False, show_zero=True)
